@@ -44,6 +44,9 @@ start:
 stmt_list:
         stmt_list stmt
             {
+                // bad (list-index): the list starts empty
+                first := $1[0]
+                _ = first
                 $$ = append($1, $2)
             }
     |   /* empty */
